@@ -180,6 +180,44 @@ def check_attrs(W, rec, rng, cell, value):
             rec.violation("C13/roundtrip-sansio-differs", f"{h!r} parsed back {r!r}; {case}", case, monitor="roundtrip")
 
 
+JAR_PATHS = ["/plain", "/my shop", "/a;b", "/café", '/q"r', "/x,y", "/<t>", "/50%", "/a%20b", "/\U0001f40d", "/a/b c/d"]
+
+
+def check_jar_path(W, rec, path, value):
+    """A cookie set with an explicit Path must come back on a request under that path and not elsewhere."""
+    from urllib.parse import quote
+
+    Response, Client, Request = W["Response"], W["Client"], W["Request"]
+    rec.case()
+    rec.observe("client_jar_path_cases")
+    rec.nontrivial(("jarpath", path, value))
+    case = {"jar_path": path, "value": value}
+    seen = {}
+
+    @Request.application
+    def app(request):
+        seen[request.path] = request.cookies.to_dict()
+        resp = Response("ok")
+        if request.path == "/set":
+            resp.set_cookie("k", value, path=path)
+        return resp
+
+    with rec.guard(case, "C13"):
+        c = Client(app)
+        c.get("/set")
+        c.get(quote(path, safe="/") + "/menu")
+        c.get("/elsewhere")
+        under = seen.get(path + "/menu")
+        if under is None:
+            rec.note(f"jar path case: request path not seen as {path + '/menu'!r}: {sorted(seen)!r}")
+            return
+        if under.get("k") != value:
+            rec.violation("C13/client-jar-explicit-path-not-sent-back", f"cookie set with Path={path!r} was not sent on a request to {path + '/menu'!r}: server saw {under!r}", case, monitor="roundtrip")
+            return
+        if "k" in seen.get("/elsewhere", {}):
+            rec.violation("C13/client-jar-path-scope-ignored", f"cookie with Path={path!r} was sent to /elsewhere", case, monitor="roundtrip")
+
+
 def rand_value(rng):
     out = []
     for _ in range(rng.randrange(0, 10)):
@@ -240,6 +278,9 @@ def run(shard, rec, rng):
         n += 1
         if n % of == idx:
             check_attrs(W, rec, rng, cell, rng.choice(["v", "a b", 'x";y', "é", "\x1b"]))
+    for j, pth in enumerate(JAR_PATHS):
+        if j % of == idx % len(JAR_PATHS) or idx == 0:
+            check_jar_path(W, rec, pth, rng.choice(["v", "a b;c", "é"]))
     # invalid samesite is refused
     if idx == 0:
         for bad in ("invalid", "lax; Secure", ""):
